@@ -20,7 +20,7 @@
  *                                  plain MALLOC/REALLOC requests use the fat-block model of env_split.h)
  * The sources are included as "../src/x.c" (= $REPO/include/../src/x.c, the unannotated file of the tree
  * under check): B units apply no loop contracts, and this keeps them independent of other owners'
- * annotation tables for str.c / dlinked_list.c.
+ * annotation tables for str.c / dlinked_list.c (which is also why the unit headers list only tok.c under src:).
  * "Modulo tok's trimming": a tok token is compared with the split / grammar token after removal of leading
  * and trailing whitespace (vr_trim); a str whose buffer is NULL (what spif_str_trim leaves for an empty
  * string) counts as the empty string.
@@ -40,7 +40,7 @@
 /*@unit
 name: tok.clean
 define: V_CLASS=0, VERIF_MAXLEN_Q=3, VERIF_MAXLEN_T=6, VS_OBJS=1024
-src: tok.c, str.c, dlinked_list.c, obj.c
+src: tok.c
 tier: B
 bound: input length <= 3 (quick tier) / <= 6 (thorough tier) over {a,b,space,:,',",\}; delimiter sets NULL, ":", " :"; inputs of class clean; loops unwound 5 / 8 (token loop 5)
 unwind: 5
@@ -57,7 +57,7 @@ funcs: spif_tok_eval, spif_tok_new_from_ptr, spif_tok_set_sep, spif_str_new_from
 /*@unit
 name: tok.defects
 define: V_CLASS=6, VERIF_MAXLEN_Q=3, VERIF_MAXLEN_T=6, VS_OBJS=1024
-src: tok.c, str.c, dlinked_list.c, obj.c
+src: tok.c
 tier: B
 bound: input length <= 3 (quick tier) / <= 6 (thorough tier) over {a,b,space,:,',",\}; delimiter sets NULL, ":", " :"; inputs of any class other than clean (the five classes below together); loops unwound 5 / 8 (token loop 5)
 unwind: 5
@@ -74,7 +74,7 @@ funcs: spif_tok_eval, spif_tok_new_from_ptr, spif_tok_set_sep, spif_str_new_from
 /*@unit
 name: tok.mixed
 define: V_CLASS=1, VERIF_MAXLEN_Q=3, VERIF_MAXLEN_T=6, VS_OBJS=1024
-src: tok.c, str.c, dlinked_list.c, obj.c
+src: tok.c
 tier: B
 bound: input length <= 3 (quick tier) / <= 6 (thorough tier) over {a,b,space,:,',",\}; delimiter sets NULL, ":", " :"; inputs of class mixed; loops unwound 5 / 8 (token loop 5)
 unwind: 5
@@ -91,7 +91,7 @@ funcs: spif_tok_eval, spif_tok_new_from_ptr, spif_tok_set_sep, spif_str_new_from
 /*@unit
 name: tok.trailbs
 define: V_CLASS=2, VERIF_MAXLEN_Q=3, VERIF_MAXLEN_T=6, VS_OBJS=1024
-src: tok.c, str.c, dlinked_list.c, obj.c
+src: tok.c
 tier: B
 bound: input length <= 3 (quick tier) / <= 6 (thorough tier) over {a,b,space,:,',",\}; delimiter sets NULL, ":", " :"; inputs of class trailbs; loops unwound 5 / 8 (token loop 5)
 unwind: 5
@@ -108,7 +108,7 @@ funcs: spif_tok_eval, spif_tok_new_from_ptr, spif_tok_set_sep, spif_str_new_from
 /*@unit
 name: tok.empty
 define: V_CLASS=3, VERIF_MAXLEN_Q=3, VERIF_MAXLEN_T=6, VS_OBJS=1024
-src: tok.c, str.c, dlinked_list.c, obj.c
+src: tok.c
 tier: B
 bound: input length <= 3 (quick tier) / <= 6 (thorough tier) over {a,b,space,:,',",\}; delimiter sets NULL, ":", " :"; inputs of class empty; loops unwound 5 / 8 (token loop 5)
 unwind: 5
@@ -125,7 +125,7 @@ funcs: spif_tok_eval, spif_tok_new_from_ptr, spif_tok_set_sep, spif_str_new_from
 /*@unit
 name: tok.blank
 define: V_CLASS=4, VERIF_MAXLEN_Q=3, VERIF_MAXLEN_T=6, VS_OBJS=1024
-src: tok.c, str.c, dlinked_list.c, obj.c
+src: tok.c
 tier: B
 bound: input length <= 3 (quick tier) / <= 6 (thorough tier) over {a,b,space,:,',",\}; delimiter sets NULL, ":", " :"; inputs of class blank; loops unwound 5 / 8 (token loop 5)
 unwind: 5
@@ -142,7 +142,7 @@ funcs: spif_tok_eval, spif_tok_new_from_ptr, spif_tok_set_sep, spif_str_new_from
 /*@unit
 name: tok.multi
 define: V_CLASS=5, VERIF_MAXLEN_Q=3, VERIF_MAXLEN_T=6, VS_OBJS=1024
-src: tok.c, str.c, dlinked_list.c, obj.c
+src: tok.c
 tier: B
 bound: input length <= 3 (quick tier) / <= 6 (thorough tier) over {a,b,space,:,',",\}; delimiter sets NULL, ":", " :"; inputs of class multi; loops unwound 5 / 8 (token loop 5)
 unwind: 5
